@@ -58,10 +58,10 @@ def reserved_at_compile(ctx):
     db = ctx.db
     init = db.func("codegen._Identifiers.__init__")
     g = cfgmod.function_cfg(init)
-    chk = [s for s in init.body if isinstance(s, ast.Assign) and "reserved_names.intersection" in src(s.value)]
+    chk = [s for s in walk_func(init) if isinstance(s, ast.Assign) and "reserved_names.intersection" in src(s.value)]
     ctx.require(chk, "_Identifiers.__init__: reserved-name test not found")
     ctx.check(P.has(chk[0], "self.compiler.reserved_names.intersection(self.locally_declared)"), "test", db.where(chk[0]), "reserved names are not intersected with the locally declared names: %s" % src(chk[0].value), "reserved ∩ locally_declared")
-    ifs = [i for i in init.body if isinstance(i, ast.If) and src(i.test) == src(chk[0].targets[0])]
+    ifs = [i for i in walk_func(init) if isinstance(i, ast.If) and src(i.test) == src(chk[0].targets[0])]
     ctx.check(bool(ifs) and flow.always_raises(ifs[0].body) and "NameConflictError" in src(ifs[0]), "raises", db.where(ifs[0]) if ifs else db.where(init), "a reserved name assigned in the template does not raise NameConflictError", "raises NameConflictError")
     good, path = g.must_pass(g.entry, g.nodes_of(chk[0]), exits=[g.exit], kinds=("n",))
     ctx.check(good, "on-every-path", db.where(chk[0]), "a path through _Identifiers.__init__ skips the reserved-name test (%s)" % g.fmt_path(path), "on every normal path")
